@@ -20,6 +20,10 @@ CHECKS = {
    text="Bounded exhaustive exploration on the implementation under crash monitors: all byte strings of length <=2 as code, the journal-opcode operand x memory x storage-encoding boundary product (<=k deviations from well-formed), and the Artela-precompile target x reach x payload-length x ABI-word x host-answer product, each run in memory-limited worker processes under recover() with a state-read sentinel; after every return the same EVM must be at rest (depth 0, call-tree cursor nil, static flag clear, follow-up call announced as a depth-0 start).",
    tech="stateless bounded-exhaustive enumeration of inputs (boundary alphabets, deviation-bounded) executed on the real code with crash/fatal-error attribution and a post-condition on the same instance",
    note="Worker deaths (fatal errors) are attributed to the case in flight and reported as violations; the one open finding (unbounded VRJNAL loop) is cut off by the sentinel and listed in known_findings.txt."),
+ "C14": dict(cat="model_checking", ref="DESIGN.md §4 C14",
+   text="Bounded exhaustive exploration on the implementation: precompile target x 12 reaches (4 call kinds from depth 1 and 2, 4 host entry points) x forks around Berlin x 20 payload lengths x ABI head/length words from a boundary alphabet (<=k deviations from a well-formed layout) x host answers x gas around the fee, plus every ordered pair of reaches as a two-call history (same EVM / fresh EVMs, distinct callers); recording host callbacks are compared with a reference ABI decoder over unbounded integers, and fee, pass-through, rejection and attribution rules are checked on every execution.",
+   tech="stateless bounded-exhaustive enumeration of inputs and two-step call histories executed on the real code, judged against a reference decoder (model in the implementation language)",
+   note="Short-payload leniency of the three precompiles is a known finding (known_findings.txt), every other deviation is reported."),
 }
 
 NOT_YET = {}
